@@ -26,12 +26,16 @@ structure Cfg.Good (c : Cfg) : Prop where
   statusBinary : c.statusBinary = true
   uidKey : c.uidKey = Spec.keyUid ++ [58]
   uidAnchored : c.uidAnchored = true
+  uidSep : c.uidSep = Sep.tabOne
   gidKey : c.gidKey = Spec.keyGid ++ [58]
   gidAnchored : c.gidAnchored = true
+  gidSep : c.gidSep = Sep.tabOne
   thrKey : c.thrKey = Spec.keyThreads ++ [58]
   thrAnchored : c.thrAnchored = true
+  thrSep : c.thrSep = Sep.tabOne
   ctxKey : c.ctxKey = Spec.ctxWord ++ [58]
   ctxAnchored : c.ctxAnchored = false
+  ctxSep : c.ctxSep = Sep.tabOne
 
 end Psutil.C06
 
